@@ -444,6 +444,10 @@ fn mem_zone(origin: &Name, axfr: bool) -> InMemoryZoneHandler {
     if ns != abs {
         z.upsert_mut(Record::from_rdata(ns, 60, RData::A(A::new(192, 0, 2, 53))), 0);
     }
+    // a delegation point: names at and below it get a referral (AA clear)
+    if let Some(d) = sub("deleg") {
+        z.upsert_mut(Record::from_rdata(d, 3600, RData::NS(NS(name("ns.elsewhere.invalid.")))), 0);
+    }
     z
 }
 
@@ -566,8 +570,10 @@ struct Resp {
     cd: bool,
     rc_low: u8,
     qd: u16,
-    /// question section equals the request's question bytes
+    /// there is exactly one question (Some(false): none)
     echo: Option<bool>,
+    /// the bytes of the question section
+    qsec: Vec<u8>,
     opt: Option<(u8, u8)>,
     scan_ok: bool,
 }
@@ -588,7 +594,7 @@ fn skip_name(b: &[u8], mut p: usize) -> Option<usize> {
     }
 }
 
-fn scan_response(r: &[u8], req_q: Option<&[u8]>) -> Option<Resp> {
+fn scan_response(r: &[u8]) -> Option<Resp> {
     if r.len() < 12 {
         return None;
     }
@@ -609,15 +615,13 @@ fn scan_response(r: &[u8], req_q: Option<&[u8]>) -> Option<Resp> {
     let mut p = 12;
     match x.qd {
         0 => x.echo = Some(false),
-        1 => match req_q {
-            Some(q) if r[12..].starts_with(q) => {
+        1 => match skip_name(r, p) {
+            Some(e) if e + 4 <= r.len() => {
                 x.echo = Some(true);
-                p += q.len();
+                x.qsec = r[12..e + 4].to_vec();
+                p = e + 4;
             }
-            _ => match skip_name(r, p) {
-                Some(e) => p = e + 4,
-                None => return Some(x),
-            },
+            _ => return Some(x),
         },
         _ => return Some(x),
     }
@@ -800,6 +804,10 @@ impl Runner {
                     let name = LowerName::from(&q.name);
                     let r = catch(|| rt.block_on(m.inner.lookup(&name, q.query_type, None, LookupOptions::default())));
                     let res = |r: &Result<AuthLookup, LookupError>| match r {
+                        // the NS RRset of a delegation point (owner is not the origin): a referral
+                        Ok(l) if l.iter().next().is_some_and(|rr| rr.record_type() == RecordType::NS && LowerName::from(&rr.name) != *m.inner.origin()) => {
+                            "r".to_string()
+                        }
                         Ok(_) => "o".to_string(),
                         Err(LookupError::ResponseCode(rc)) => format!("e{}", u16::from(*rc)),
                         Err(_) => "e0".to_string(),
@@ -828,17 +836,16 @@ impl Runner {
         cfg.log.lock().unwrap().clear();
         *CURRENT.lock().unwrap() = None;
 
-        let req_q = parsed.question.as_ref().map(|(b, _)| &b[..]);
         let (out, resp): (String, Option<Resp>) = match &got {
             Err(p) => (format!("panic {p}"), None),
             Ok(v) if v.is_empty() => ("drop".into(), None),
             Ok(v) if v.len() > 1 => (format!("multi {}", v.len()), None),
-            Ok(v) => match scan_response(&v[0], req_q) {
+            Ok(v) => match scan_response(&v[0]) {
                 None => ("reply-short".into(), None),
                 Some(r) => {
                     let rc = (r.opt.map(|o| (o.0 as u16) << 4).unwrap_or(0)) | r.rc_low as u16;
                     let s = format!(
-                        "reply qr={} rc={} id={} op={} rd={} cd={} aa={} ra={} q={} opt={} log={}",
+                        "reply qr={} rc={} id={} op={} rd={} cd={} aa={} ra={} q={} qb={} opt={} log={}",
                         b(r.qr),
                         rc,
                         r.id,
@@ -851,6 +858,7 @@ impl Runner {
                             Some(x) => b(x),
                             None => "?",
                         },
+                        hex(&r.qsec),
                         b(r.opt.is_some()),
                         if log.is_empty() { "-".to_string() } else { log.join(",") }
                     );
@@ -971,14 +979,13 @@ impl Runner {
                     if want.is_none() {
                         rec.stat("note.question-not-decodable-by-reference-decoder");
                     } else if have != want {
-                        if compressed && r.echo == Some(true) {
-                            fails.push((
-                                "the echoed question bytes contain a compression pointer into the header and decode to a different question (or not at all) in the response".into(),
-                                "C11.CompressedQuestionEcho",
-                            ));
-                        } else {
-                            fails.push(("response does not carry the request's question".into(), ""));
-                        }
+                        fails.push((
+                            format!(
+                                "the question of the response does not decode to the request's question{}",
+                                if compressed { " (compressed question name in the request)" } else { "" }
+                            ),
+                            "",
+                        ));
                     }
                 }
             }
@@ -1246,7 +1253,13 @@ fn gen_qname(r: &mut Rng, zones: &[ZSpec]) -> Vec<Vec<u8>> {
     let mut l = labels_of(&base);
     match r.below(10) {
         0 | 1 => {}
-        2 | 3 | 4 => l.insert(0, b"www".to_vec()),
+        2 | 3 => l.insert(0, b"www".to_vec()),
+        4 => {
+            l.insert(0, b"deleg".to_vec());
+            if r.chance(1, 2) {
+                l.insert(0, b"host".to_vec());
+            }
+        }
         5 => {
             for _ in 0..r.range(1, 3) {
                 l.insert(0, r.pick(&[&b"a"[..], b"sub", b"x-y", b"*", b"ns", b"\x00", b"deep"]).to_vec());
